@@ -663,7 +663,7 @@ PROPS["C04"] = {'claimed': True,
                 'a history is not covered (fixed peripheral set); C04_end_to_end_effect takes the waiting master state as satisfying safe_inv '
                 '(proved invariant of contract-respecting histories) rather than re-deriving it inside the FDL run.'}
 
-PROPS["C07"] = {'claimed': False,
+PROPS["C07"] = {'claimed': True,
  'coq': 'Properties/C07.v',
  'domains': ['dp'],
  'nontrivial': ['dp:step:transmit', 'dp:step:reply', 'dp:step:timeout'],
@@ -671,16 +671,43 @@ PROPS["C07"] = {'claimed': False,
          'slaves, lost requests/replies, malformed and unexpected replies, power cycles, user calls between bus events, time advances, fault-free '
          'tails), deduplicated; non-trivial = callbacks executed on the real master (transmit / reply / timeout steps)',
  'trusted_base': ['hand models coq/Model/Peripheral.v + DpMaster.v of src/dp/peripheral.rs, master.rs, peripheral_set.rs (after fix commits F4 F6 '
-                  'F10 F11), tied by transcript replay: every FdlApplication callback and API call of generated histories is executed on the real '
+                  'F10 F11 F12 F13 F14), tied by transcript replay: every FdlApplication callback and API call of generated histories is executed on the real '
                   'DpMaster and on the model, all outputs compared (TX bytes, events, is_live/is_running/pi_i/pi_q/last_diagnostics, operating '
                   'state)',
                   'reference slave coq/Model/Slave.v (environment, written against the PROFIBUS standard, not the crate) and its Rust twin in '
                   'harness/src/dp.rs, compared on every slave reply',
                   'the FdlApplication contract (C15) as the space of histories; harness emulates the FDL reply admission filter'],
- 'technique': 'phase 1: model + correspondence + executable recovery monitor',
- 'level_text': 'Phase 1: model, correspondence, bounded-recovery monitor (DpOracle.c07_monitor, bound max_retry+16 cycles) on fault histories '
-               'followed by a fault-free tail; one-step theorems C07_offline_reported, C07_reply_never_counts. Known finding F15 (class '
-               'DpOracle.c07_known_f15). Missing for a claim: C07_recovery over the joint system.',
+ 'technique': 'Coq proofs: data-independence simulation (concrete joint cycle -> finite control system), complete forallb check of the finite control '
+              'space by vm_compute with a symbolic retry counter, closed-set (invariant) arguments, history induction for the life-cycle automaton; '
+              'plus the executable recovery monitor on implementation transcripts',
+ 'level_text': 'Machine-checked theorems (Coq 8.16.1, closed under the global context; coq/Properties/C07.v, 14 theorems). Joint system = ONE peripheral '
+               'state machine of the DP master driven directly through Peripheral.p_transmit / p_receive_reply (one cycle of a master with a single '
+               'occupied slot; NOT through DpMaster.dp_transmit) x the reference slave Slave.slave_step over a fault-free wire (frame_spec bytes, decode, '
+               'FDL admission rule DpOracle.admissible). C07_recovery: from EVERY joint state satisfying jinv (master and device fit together as in '
+               'DpOracle.healthy, device not silent / no forced flags, sizes within the frame format, max_retry_limit 1..15, frame count bit not Inactive, '
+               'retry counter >= 0, slave ready delay and not-ready counter <= 2) and outside the F15 class - any peripheral state, retry count, flags, '
+               'images, slave state, stored bit and ANY stored response bytes - within max_retry + 11 cycles (C07_bound_within_monitor: <= '
+               'DpOracle.c07_bound = max_retry + 16) the peripheral is in DataExchange with the slave in Data_Exch, no cycle panics, and it stays there '
+               'for every later cycle count. C07_recovery_explicit: the same outside the explicit class f15_suspect (slave in Wait_Cfg while the master is '
+               'past Chk_Cfg or about to repeat a Chk_Cfg that the slave takes for a retransmission). Known finding F15 as theorems: C07_f15_refuted (the '
+               'core - master ValidateConfig, slave Wait_Cfg without fault flags, in sync - is closed under the fault-free cycle: never recovers), '
+               'C07_f15_class_never_recovers, Example C07_f15_witness (computed). Proof steps stated as theorems: C07_data_independence (the control '
+               'projection of one concrete cycle is one step of the finite control system, for all payloads), C07_control_space (complete check of 18 x 2 x '
+               '122,688 control states by vm_compute, retry counter and max_retry symbolic). C07_silent_goes_offline (a live peripheral without replies '
+               'repeats the SAME request in its next max_retry+1-retry_count turns - exactly 1+max_retry transmissions from 0 - then raises Offline, not '
+               'live, bit reset), C07_life_history (over EVERY history of one peripheral - turns, replies with any telegram, timeouts, user calls - the '
+               'events follow the life-cycle automaton DpOracle.l_step), C07_no_data_exchange_before_configured, C07_online_again (from every joint state '
+               'with the peripheral Offline: data exchange within the bound, events accepted Off->Cfg and containing Online then Configured), '
+               'C07_slave_retry_detection (Slave.v: FCV=1 with the stored bit => stored response, state unchanged; otherwise processed and stored; '
+               'FCV=0/FCB=1 resets), one-step C07_offline_reported, C07_reply_never_counts. The monitor DpOracle.c07_monitor (bound max_retry+16 '
+               'completed cycles, class DpOracle.c07_known_f15) runs on every implementation transcript with a fault-free tail.',
+ 'partial_gap': 'All planned C07 theorems are proved. Scope notes: (a) the joint system has ONE peripheral driven at the Peripheral level; the composition '
+                'with DpMaster slot iteration / global-control telegrams for several peripherals is not part of C07_recovery (C14 covers the cycle '
+                'structure; the monitor checks the multi-peripheral case on implementation transcripts). (b) The bound max_retry + 11 is proved for slave '
+                'ready delays <= 2 diagnostics cycles (the generator range); larger delays lengthen recovery by the delay and are outside the theorem. '
+                '(c) F15 is excluded exactly: f15_class = states whose fault-free run enters the F15 core within the bound; the transcript-level class '
+                'DpOracle.c07_known_f15 used by the monitor is a different (observational) description of the same finding, their equivalence is not '
+                'proved.',
  'level_note': 'Trusted: Coq kernel, translator (gen/translate.py, gen/tr_dp.py), extraction + OCaml driver, Rust harness; hand model validated '
                'differentially, not verified.',
  'design_ref': 'DESIGN.md section 4, C07',
